@@ -44,6 +44,8 @@ type hookProgram struct {
 	IntegralFloat     bool   `json:"integralFloat"`     // const: write the first "replicas":N as N.0 on the wire
 	PlainOwnerRef     bool   `json:"plainOwnerRef"`     // const: every child lists the parent as a plain (non-controller) owner
 	EmptyForImage     string `json:"emptyForImage"`     // template: no children at all for a parent (revision) with this image
+	BadForImage       string `json:"badForImage"`       // template: the call fails for a parent (revision) with this image ...
+	BadKind           string `json:"badKind"`           // ... "500" (default), "garbage" (a rejected body) or "neterr"
 }
 
 func (h *hookProgram) answer(url string, req J) (int, map[string]string, []byte, bool) {
@@ -68,6 +70,21 @@ func (h *hookProgram) answer(url string, req J) (int, map[string]string, []byte,
 		return code, hdr, []byte(h.RawBody), false
 	}
 	if h.Kind == "template" {
+		if h.BadForImage != "" {
+			// a hook that fails for one parent state only (the older revision's, say)
+			parent, _ := req["parent"].(map[string]interface{})
+			spec, _ := parent["spec"].(map[string]interface{})
+			if image, _ := spec["image"].(string); image == h.BadForImage {
+				switch h.BadKind {
+				case "garbage":
+					return 200, hdr, []byte(`{"children": 7, "status": {}}`), false
+				case "neterr":
+					return 0, nil, nil, true
+				default:
+					return 500, hdr, []byte("the hook does not know this parent state"), false
+				}
+			}
+		}
 		return code, hdr, h.templateAnswer(req), false
 	}
 	if h.Kind == "ordered" || h.Kind == "echo" || h.Kind == "echo-meta" {
